@@ -208,6 +208,53 @@ func checkC20(c *Ctx) {
 	}
 	c.note("map_ranges", len(ranges))
 
+	// ---- C20-SORT: the comparators that impose an order on map-derived data compare the keys themselves
+	{
+		n := 0
+		for _, f := range c.zygoFuncs() {
+			if f.Name() != "Less" || f.Signature.Recv() == nil || len(f.Params) != 3 {
+				continue
+			}
+			// the result is a single ordered comparison of two values
+			for _, r := range returnsOf(f) {
+				bo, ok := r.Results[0].(*ssa.BinOp)
+				if !ok || (bo.Op != token.LSS && bo.Op != token.GTR && bo.Op != token.LEQ && bo.Op != token.GEQ) {
+					continue
+				}
+				n++
+				raw := func(v ssa.Value) bool {
+					// a field or element read, possibly converted; not the result of a call
+					for depth := 0; depth < 6; depth++ {
+						switch x := v.(type) {
+						case *ssa.Call:
+							if _, isB := x.Call.Value.(*ssa.Builtin); isB {
+								return true // len(...)
+							}
+							return false
+						case *ssa.Convert:
+							v = x.X
+						case *ssa.UnOp:
+							return true
+						case *ssa.Field, *ssa.Extract, *ssa.Parameter, *ssa.Const, *ssa.Index, *ssa.Lookup:
+							return true
+						case *ssa.BinOp:
+							return true
+						default:
+							return true
+						}
+					}
+					return true
+				}
+				c.check(raw(bo.X) && raw(bo.Y), "C20-SORT", fnName(f), "compares the keys themselves", bo.Pos(),
+					"the order is decided by the stored keys, which are distinct: the sort result does not depend on the order the data came in",
+					"the comparator orders by a function of the keys (e.g. their lower-cased form), under which distinct keys can tie: sort.Sort is not stable, so tied keys keep whatever order the Go map walk gave them and the result differs from run to run")
+			}
+		}
+		if n == 0 {
+			c.undecided("C20-SORT", "package", "comparators", token.NoPos, "no Less method returning an ordered comparison found")
+		}
+	}
+
 	// ---- C20-GLOB: package-level variables written on script-reachable paths
 	globs := map[string]token.Pos{}
 	for f := range reachR.reach {
